@@ -2,7 +2,7 @@
    (RQ, ideal disk): the two arithmetic hypotheses of PipelineProofs.v
    (no_zero_div, wf of the loaded ruleset) are discharged, and the
    probabilities of all guesses of a complete session sum to 1. *)
-From Coq Require Import String List NArith ZArith QArith Bool Lia Sorting.Permutation Sorting.Sorted.
+From Coq Require Import String List NArith ZArith QArith Bool Lia Lqa Sorting.Permutation Sorting.Sorted.
 From Pcfg Require Import ProbAlg QProb Str Detect Segment TextFile TextFileProofs Counters CountersProofs LtallyProofs IoFacts
      Loader Next NextSpec NextProofs QSum Expand Pipeline PipelineStr PipelineTrain PipelineLoad PipelineProofs.
 Import ListNotations.
@@ -181,10 +181,12 @@ Proof.
   - right. now apply IH.
 Qed.
 
-Lemma filter_M_absent {T} : forall (ls : list (TextFile.str * T)),
-  ~ In M_key (map fst ls) -> filter (fun l => Loader.is_M (fst l)) ls = [].
+Definition isMline (l : TextFile.str * Q) : bool := Loader.is_M (fst l).
+
+Lemma filter_M_absent : forall (ls : list (TextFile.str * Q)),
+  ~ In M_key (map fst ls) -> filter isMline ls = [].
 Proof.
-  induction ls as [|[s p] r IH]; intros Hn; [reflexivity|]. cbn [filter fst].
+  induction ls as [|[s p] r IH]; intros Hn; [reflexivity|]. cbn [filter]. unfold isMline at 1. cbn [fst].
   destruct (Loader.is_M s) eqn:Es.
   - apply is_M_iff in Es. exfalso. apply Hn. left. exact Es.
   - apply IH. intros H. apply Hn. now right.
@@ -192,12 +194,12 @@ Qed.
 
 (* with distinct keys, the Markov lines are the line the first scan finds *)
 Lemma Qsum_M_lines : forall (ls : list (TextFile.str * Q)), NoDup (map fst ls) ->
-  (Qsum (map snd (filter (fun l => Loader.is_M (fst l)) ls))
+  (Qsum (map snd (filter isMline ls))
    == match Loader.scan_M ls with Some pm => pm | None => 0 end)%Q.
 Proof.
   induction ls as [|[s p] r IH]; intros Hn; [reflexivity|].
   cbn [map fst] in Hn. inversion Hn as [|? ? Hs Hn']; subst.
-  cbn [filter fst Loader.scan_M]. destruct (Loader.is_M s) eqn:Es.
+  cbn [filter Loader.scan_M]. unfold isMline at 1. cbn [fst]. destruct (Loader.is_M s) eqn:Es.
   - apply is_M_iff in Es. subst s. rewrite (filter_M_absent r Hs). cbn [map snd]. rewrite Qsum_cons. cbn. ring.
   - now apply IH.
 Qed.
@@ -217,6 +219,32 @@ Qed.
 
 Lemma combine_map_map {X Y Z} (f : X -> Y) (g : X -> Z) : forall l, combine (map f l) (map g l) = map (fun x => (f x, g x)) l.
 Proof. induction l as [|a l IH]; cbn [map combine]; [reflexivity|]. now rewrite IH. Qed.
+
+(* the loader's divisor 1 - P(M) is positive and is the mass of the other lines *)
+Lemma skip_total_generic (bf : list (TextFile.str * Q)) :
+  NoDup (map fst bf) -> (forall pm, In (M_key, pm) bf -> (pm < 1)%Q) -> (Qsum (map snd bf) == 1)%Q ->
+  (0 < skip_total 1%Q Qminus bf)%Q /\
+  (Qsum (map snd (filter (fun x => negb (isMline x)) bf)) == skip_total 1%Q Qminus bf)%Q.
+Proof.
+  intros Hnd HM Hsum.
+  pose proof (Qsum_filter_split isMline snd bf) as Hsplit. rewrite Hsum in Hsplit.
+  pose proof (Qsum_M_lines bf Hnd) as HMl. unfold skip_total.
+  set (S := Qsum (map snd (filter (fun x => negb (isMline x)) bf))) in *.
+  destruct (Loader.scan_M bf) as [pm|] eqn:Es.
+  - apply scan_M_in in Es. pose proof (HM pm Es) as Hlt. rewrite HMl in Hsplit. split; lra.
+  - rewrite HMl in Hsplit. split; lra.
+Qed.
+
+Lemma kept_sum_generic (isalpha : N -> bool) (bf : list (TextFile.str * Q)) (tot : Q) :
+  (forall l, In l bf -> nonM isalpha l = negb (isMline l)) -> (0 < tot)%Q ->
+  (Qsum (map snd (filter (fun x => negb (isMline x)) bf)) == tot)%Q ->
+  (Qsum (map fst (map (fun l : TextFile.str * Q => ((snd l / tot)%Q, Loader.insert_caps (toks isalpha (fst l))))
+                      (filter (nonM isalpha) bf))) == 1)%Q.
+Proof.
+  intros Hn Hp Hs. rewrite map_map. cbn [fst]. rewrite (filter_ext_in _ _ _ Hn).
+  etransitivity; [exact (Qsum_map_div snd tot _)|]. rewrite Hs. field.
+  intros H. rewrite H in Hp. exact (Qlt_irrefl _ Hp).
+Qed.
 
 (* ------------------------------------------------------------------ *)
 (* exact rationals: Grammar/grammar.txt                                *)
@@ -319,4 +347,182 @@ Proof.
         apply Qplus_lt_le_compat; [assumption|apply Qle_refl].
 Qed.
 
+(* Grammar/grammar.txt itself *)
+Lemma base_file_facts (o : options QProb) raw rs r :
+  cov_ok o -> Forall (parsed_ok E) rs -> In r rs -> r_supported r = true ->
+  let bf : list (TextFile.str * Q) := base_file RQ (trained_of E o raw rs) in
+  NoDup (map fst bf) /\ (forall k p, In (k, p) bf -> (0 <= p)%Q) /\
+  (forall pm, In (M_key, pm) bf -> (pm < 1)%Q) /\ (Qsum (map snd bf) == 1)%Q.
+Proof.
+  intros Hcov Hrs Hr Hsup bf.
+  pose proof (base_counter_facts o raw rs r Hcov Hrs Hr Hsup) as H. cbv zeta in H.
+  destruct H as (HT & Hnd & Hpos & HM).
+  unfold bf, base_file. set (bc := base_counter RQ (trained_of E o raw rs)) in *.
+  split; [exact (calc_probs_keys_nodup QNum bc Hnd)|]. split; [|split].
+  - intros k p Hin. destruct (calc_probs_value QNum bc k p Hin) as (n & Hn & ->). cbn [ndiv QNum].
+    apply Qle_shift_div_l; [assumption|]. rewrite Qmult_0_l. now apply (Hpos k).
+  - intros pm Hin. destruct (calc_probs_value QNum bc _ pm Hin) as (n & Hn & ->). cbn [ndiv QNum].
+    apply Qlt_shift_div_r; [assumption|]. rewrite Qmult_1_l. now apply HM.
+  - apply (calc_probs_sum_one_Q bc). intros H. rewrite H in HT. exact (Qlt_irrefl _ HT).
+Qed.
+
+Lemma skip_total_facts (o : options QProb) raw rs r :
+  cov_ok o -> Forall (parsed_ok E) rs -> In r rs -> r_supported r = true ->
+  let bf : list (TextFile.str * Q) := base_file RQ (trained_of E o raw rs) in
+  (0 < skip_total 1%Q Qminus bf)%Q /\
+  (Qsum (map snd (filter (fun x => negb (isMline x)) bf)) == skip_total 1%Q Qminus bf)%Q.
+Proof.
+  intros Hcov Hrs Hr Hsup bf.
+  pose proof (base_file_facts o raw rs r Hcov Hrs Hr Hsup) as H. cbv zeta in H. fold bf in H.
+  destruct H as (Hnd & _ & HM & Hsum). exact (skip_total_generic bf Hnd HM Hsum).
+Qed.
+
+(*  Q3  *)
+Theorem no_zero_div_Q : forall (o : options QProb) raw rs r,
+  cov_ok o -> Forall (parsed_ok E) rs -> In r rs -> r_supported r = true ->
+  no_zero_div RQ (trained_of E o raw rs).
+Proof.
+  intros o raw rs r Hcov Hrs Hr Hsup. unfold no_zero_div.
+  pose proof (skip_total_facts o raw rs r Hcov Hrs Hr Hsup) as H. cbv zeta in H. destruct H as (Hp & _).
+  apply Qeq_bool_false. intros H. rewrite H in Hp. exact (Qlt_irrefl _ Hp).
+Qed.
+
+(* the lines the guesser keeps are the lines whose key is not "M" *)
+Lemma nonM_is_M (o : options QProb) raw rs : Forall (parsed_ok E) rs ->
+  forall l : TextFile.str * Q, In l (base_file RQ (trained_of E o raw rs)) -> nonM (e_isalpha E) l = negb (isMline l).
+Proof.
+  intros Hrs [k p] Hl.
+  assert (Hk : In k (map fst (base_file RQ (trained_of E o raw rs)))) by (apply in_map_iff; now exists (k, p)).
+  unfold nonM, isMline. cbn [fst].
+  destruct (base_file_keys RQ E o raw rs k Hk) as [->|(r & Hr & _ & ->)].
+  - rewrite (toks_M E HE). reflexivity.
+  - rewrite Forall_forall in Hrs. rewrite (toks_structure E HE r (Hrs r Hr)), has_M_labels.
+    destruct (Loader.is_M (structure_of r)) eqn:Es; [|reflexivity].
+    apply is_M_iff in Es. exfalso. exact (structure_not_M r (Hrs r Hr) Es).
+Qed.
+
+(* the kept base probabilities sum to 1 *)
+Lemma loaded_bases_sum (o : options QProb) raw rs r :
+  cov_ok o -> Forall (parsed_ok E) rs -> In r rs -> r_supported r = true ->
+  (Qsum (map fst (loaded_bases RQ E (trained_of E o raw rs))) == 1)%Q.
+Proof.
+  intros Hcov Hrs Hr Hsup.
+  pose proof (skip_total_facts o raw rs r Hcov Hrs Hr Hsup) as H. cbv zeta in H. destruct H as (Hp & Hsum).
+  exact (kept_sum_generic (e_isalpha E) (base_file RQ (trained_of E o raw rs)) _ (nonM_is_M o raw rs Hrs) Hp Hsum).
+Qed.
+
+Lemma loaded_bases_nonneg (o : options QProb) raw rs r :
+  cov_ok o -> Forall (parsed_ok E) rs -> In r rs -> r_supported r = true ->
+  forall b, In b (loaded_bases RQ E (trained_of E o raw rs)) -> (0 <= fst b)%Q.
+Proof.
+  intros Hcov Hrs Hr Hsup b Hb.
+  pose proof (skip_total_facts o raw rs r Hcov Hrs Hr Hsup) as H. cbv zeta in H. destruct H as (Hp & _).
+  pose proof (base_file_facts o raw rs r Hcov Hrs Hr Hsup) as H. cbv zeta in H. destruct H as (_ & Hpos & _).
+  unfold loaded_bases in Hb. apply in_map_iff in Hb. destruct Hb as ([k p] & <- & Hl). apply filter_In in Hl.
+  destruct Hl as (Hl & _). cbn [fst snd]. apply Qle_shift_div_l; [exact Hp|]. rewrite Qmult_0_l. exact (Hpos k p Hl).
+Qed.
+
+(*  Q4  *)
+Theorem loaded_wf_Q : forall (o : options QProb) raw rs r bl,
+  cov_ok o -> Forall (parsed_ok E) rs -> In r rs -> r_supported r = true ->
+  Forall2 (fun b x => bprob x = fst b /\ vars_of (grammar_of RQ (counters_of rs)) (snd b) = Some (brepl x))
+          (loaded_bases RQ E (trained_of E o raw rs)) bl ->
+  @wf QProb {| tbl := map (fun e => map snd (snd e)) (grammar_of RQ (counters_of rs)); bases := bl |}.
+Proof.
+  intros o raw rs r bl Hcov Hrs Hr Hsup HF. unfold wf. cbn [bases]. apply Forall_forall. intros x Hx.
+  destruct (Forall2_in_r _ _ _ _ HF Hx) as (b & Hb & Hp & Hv). split.
+  - rewrite Hp. apply QProb_okb_iff. exact (loaded_bases_nonneg o raw rs r Hcov Hrs Hr Hsup b Hb).
+  - pose proof (loaded_bases_names RQ E HE o raw rs Hrs) as Hn. rewrite Forall_forall in Hn. specialize (Hn b Hb).
+    apply vars_of_Forall2 in Hv. apply Forall_forall. intros v Hvin.
+    destruct (Forall2_in_r _ _ _ _ Hv Hvin) as (name & Hname & Hvar).
+    rewrite Forall_forall in Hn. destruct (Hn name Hname) as (items & Hne & Hin).
+    destruct (loaded_var_groups RQ rs bl name _ v Hin Hvar) as (Hg & _). rewrite Hg. now apply groups_of_wf_Q.
+Qed.
+
+(* every variable of a kept base structure has mass 1 *)
+Lemma loaded_var_mass (o : options QProb) raw rs bl x v :
+  Forall (parsed_ok E) rs ->
+  Forall2 (fun b x => bprob x = fst b /\ vars_of (grammar_of RQ (counters_of rs)) (snd b) = Some (brepl x))
+          (loaded_bases RQ E (trained_of E o raw rs)) bl ->
+  In x bl -> In v (brepl x) ->
+  (var_mass {| tbl := map (fun e => map snd (snd e)) (grammar_of RQ (counters_of rs)); bases := bl |}
+            (sizes_of (grammar_of RQ (counters_of rs))) v == 1)%Q.
+Proof.
+  intros Hrs HF Hx Hvin.
+  destruct (Forall2_in_r _ _ _ _ HF Hx) as (b & Hb & _ & Hv).
+  pose proof (loaded_bases_names RQ E HE o raw rs Hrs) as Hn. rewrite Forall_forall in Hn. specialize (Hn b Hb).
+  apply vars_of_Forall2 in Hv. destruct (Forall2_in_r _ _ _ _ Hv Hvin) as (name & Hname & Hvar).
+  rewrite Forall_forall in Hn. destruct (Hn name Hname) as (items & Hne & Hin).
+  destruct (loaded_var_groups RQ rs bl name _ v Hin Hvar) as (Hg & Hsz).
+  rewrite var_mass_combine by (rewrite Hg, Hsz, !map_length; reflexivity).
+  rewrite Hg, Hsz, combine_map_map, map_map. cbn [fst snd]. exact (groups_of_mass_Q items Hne).
+Qed.
+
+Lemma bprobs_of_bases {X} (g : X -> option (list nat)) : forall (bs : list (Q * X)) (bl : list Qbstruct),
+  Forall2 (fun b x => bprob x = fst b /\ g (snd b) = Some (brepl x)) bs bl -> map (@bprob QProb) bl = map fst bs.
+Proof. induction 1 as [|b x bs bl (Hp & _) _ IH]; [reflexivity|]. cbn [map]. now rewrite Hp, IH. Qed.
+
+(* ------------------------------------------------------------------ *)
+(* the two top theorems for exact arithmetic                           *)
+(* ------------------------------------------------------------------ *)
+
+Lemma supported_of_pw (o : options QProb) raw pw r :
+  parsed_ok E r -> segments E o raw pw = POk r -> supported_pw E o raw pw = true -> r_supported r = true.
+Proof.
+  intros Hok Eseg Hsup. unfold supported_pw in Hsup. rewrite Eseg in Hsup. destruct Hok as (_ & _ & Hc).
+  destruct Hc as (_ & _ & _ & _ & _ & _ & _ & _ & _ & _ & _ & Hps & _). rewrite Hps in Hsup. exact Hsup.
+Qed.
+
+Lemma cov_nonzero (o : options QProb) : cov_ok o -> a_eqb RQ (o_cov o) (a_zero RQ) = false.
+Proof. intros (H0 & _). apply Qeq_bool_false. intros H. rewrite H in H0. exact (Qlt_irrefl _ H0). Qed.
+
+Theorem C03_reproduced_Q : forall (o : options QProb) raw tr pw,
+  train E o raw = Some tr -> In pw raw -> accepted_pw E pw = true -> supported_pw E o raw pw = true -> case_ok_pw E pw ->
+  cov_ok o ->
+  exists L, pipeline_Q E o raw = Some L /\
+    forall pop, pop_ok_okb pop ->
+      (exists it, In it (session pop L) /\ exists out k, guesses_of RQ E L it = Some (out, k) /\ In pw out) /\
+      In pw (printed RQ E pop L).
+Proof.
+  intros o raw tr pw Htr Hin Hacc Hsup Hcase Hcov.
+  destruct (train_facts E HE o raw tr Htr) as (rs & Htr_eq & Hrs & Hpw).
+  destruct (Hpw pw Hin Hacc) as (r & Hr & Eseg & _).
+  assert (Hrsup : r_supported r = true).
+  { rewrite Forall_forall in Hrs. exact (supported_of_pw o raw pw r (Hrs r Hr) Eseg Hsup). }
+  pose proof (no_zero_div_Q o raw rs r Hcov Hrs Hr Hrsup) as Hz.
+  destruct (reproduced_emitted RQ E HE o raw tr pw Htr Hin Hacc Hsup Hcase (cov_nonzero o Hcov)
+              ltac:(rewrite Htr_eq; exact Hz)) as (L & HL & Hall).
+  exists L. split.
+  - unfold pipeline_Q, pipeline. rewrite Htr. exact HL.
+  - apply Hall. subst tr. destruct (load_saved RQ E HE o raw rs Hrs Hz) as (bl & Hload & HF).
+    rewrite Hload in HL. injection HL as <-. cbn [l_rs]. exact (loaded_wf_Q o raw rs r bl Hcov Hrs Hr Hrsup HF).
+Qed.
+
+Theorem C03_sum_one_Q : forall (o : options QProb) raw tr pw,
+  train E o raw = Some tr -> In pw raw -> accepted_pw E pw = true -> supported_pw E o raw pw = true ->
+  cov_ok o ->
+  exists L, pipeline_Q E o raw = Some L /\
+    forall pop, pop_ok_okb pop ->
+      (Qsum (map (fun it : Qitem => iprob it * count_it (sizes_of (l_grammar L)) it)
+                 (emitted (run pop (l_rs L) (NextSpec.total (l_rs L)) (start (l_rs L))))) == 1)%Q.
+Proof.
+  intros o raw tr pw Htr Hin Hacc Hsup Hcov.
+  destruct (train_facts E HE o raw tr Htr) as (rs & Htr_eq & Hrs & Hpw).
+  destruct (Hpw pw Hin Hacc) as (r & Hr & Eseg & _).
+  assert (Hrsup : r_supported r = true).
+  { rewrite Forall_forall in Hrs. exact (supported_of_pw o raw pw r (Hrs r Hr) Eseg Hsup). }
+  pose proof (no_zero_div_Q o raw rs r Hcov Hrs Hr Hrsup) as Hz.
+  destruct (load_saved RQ E HE o raw rs Hrs Hz) as (bl & Hload & HF).
+  eexists. split.
+  - unfold pipeline_Q, pipeline. rewrite Htr, Htr_eq. exact Hload.
+  - intros pop Hpop. cbn [l_rs l_grammar]. apply QSum_emitted.
+    + intros b Hb v Hv. cbn [bases] in Hb. exact (loaded_var_mass o raw rs bl b v Hrs HF Hb Hv).
+    + exact (loaded_wf_Q o raw rs r bl Hcov Hrs Hr Hrsup HF).
+    + exact Hpop.
+    + cbn [bases]. rewrite (bprobs_of_bases _ _ _ HF). exact (loaded_bases_sum o raw rs r Hcov Hrs Hr Hrsup).
+Qed.
+
 End Q.
+
+Print Assumptions C03_reproduced_Q.
+Print Assumptions C03_sum_one_Q.
